@@ -3,6 +3,9 @@
 import json, os
 HERE = os.path.dirname(os.path.dirname(os.path.abspath(__file__)))
 CHECKS = {
+ "C07": dict(cat="model_checking", technique="TLA+ sort relation (permutation + key order + stability + bookmarks), nearest-mutation-above definition; TLC validates recorded sort / repair-pipeline / canonicalise calls on shuffled collections",
+    text="TskSort states sort() as a relation: nodes/individuals/populations untouched, the four other tables permuted with row content (metadata tags) travelling with the row and mutation.site/parent remapped, suffixes from the bookmarks in documented key order, ties stable, prefixes untouched, idempotent; compute_mutation_parents = nearest mutation above; repaired result loads with the same trees and genotypes. Real calls on shuffled consistent collections (universe-derived and random, duplicate site positions, known/unknown times, migrations, every bookmark kind) are validated by TLC.",
+    note="Repair-pipeline inputs keep each site's relative mutation order and individuals are acyclic (documented preconditions); canonical-form equality and idempotence are evaluated with TableCollection.equals.", ref="DESIGN.md §3 C07"),
  "C04": dict(cat="model_checking", technique="TLA+ positional carrier-map definition of simplify; TLC validates recorded simplify calls (input, samples, options, output, node map) on universe and random inputs",
     text="TskSimplify defines, per position, the carrier of every input node and from it the expected output parent relation, retained node set, mutation placement, site/individual/population retention and flag rule for every option; real simplify calls over the TLC-enumerated universe and random larger inputs with sample lists of arbitrary nodes and random option combinations are validated by TLC; idempotence is evaluated by the harness and checked as a clause.",
     note="Edges carry no metadata (simplify refuses it); rows are followed by metadata tags; non-idempotence under reduce_to_site_topology is a known finding.", ref="DESIGN.md §3 C04"),
